@@ -35,6 +35,9 @@ Inductive seck := SRight | SWrong
 Inductive atype := TJWT | TNone | TWrong.   (* client_assertion_type: the jwt-bearer urn / absent / something else *)
 Inductive assk := AOk | AWrongKey | AWrongAud.
 
+(* the registration of a second client Y: auth method; registered for every grant or for none *)
+Record victim := mkV { v_meth : amethod; v_grants : bool }.
+
 (* what the request carries as client credential *)
 Inductive pres :=
 | PNone                          (* nothing, not even client_id *)
@@ -50,12 +53,12 @@ Inductive pres :=
 (* cross-client presentations: a second, confidential client Y ("victim", [victim_reg]) exists,
    the grant artefact of the case (code, refresh token, device code, token to introspect or
    revoke) belongs to Y, and the request mixes the case's client X with Y's id *)
-| PXBasic (vm : amethod)         (* Basic X:right secret of X, client_id=Y in the form *)
-| PXAssert (vm : amethod)        (* valid assertion of X, client_id=Y in the form *)
-| PXPost (vm : amethod)          (* client_id=X + right client_secret of X in the form, Basic Y:wrong secret *)
-| PXPostId (vm : amethod)        (* client_id=Y + right client_secret of X in the form *)
-| PXDup (vm : amethod).          (* body: client_id=X + right client_secret of X; URL query: client_id=Y *)
-(* vm: the auth method Y is registered with *)
+| PXBasic (v : victim)           (* Basic X:right secret of X, client_id=Y in the form *)
+| PXAssert (v : victim)          (* valid assertion of X, client_id=Y in the form *)
+| PXPost (v : victim)            (* client_id=X + right client_secret of X in the form, Basic Y:wrong secret *)
+| PXPostId (v : victim)          (* client_id=Y + right client_secret of X in the form *)
+| PXDup (v : victim).            (* body: client_id=X + right client_secret of X; URL query: client_id=Y *)
+(* v: how the second client Y is registered *)
 
 Record cfg := mkCfg { f_post : bool; f_pkjwt : bool; f_refresh : bool;   (* op.Config flags *)
                       c_cc : bool; c_te : bool; c_dev : bool }.          (* optional storage capabilities *)
@@ -132,7 +135,8 @@ Definition registered (rg : reg) (g : grant) : bool := existsb (grant_eqb g) (r_
 (* ---------------- cross-client presentations: which client and credential the parsers end up with *)
 
 Definition all_grants := [GCode; GRefresh; GCC; GBearer; GTE; GDevice; GImplicit].
-Definition victim_reg (vm : amethod) := mkReg true vm AWeb all_grants false.
+Definition victim_reg (v : victim) :=
+  mkReg true (v_meth v) AWeb (if v_grants v then all_grants else []) false.
 
 (* ---------------- which part of the request a guard reads.  http.Request.Form holds the body
    values followed by the URL query values, PostForm the body values only; Form.Get / FormValue
@@ -161,8 +165,8 @@ Definition src_device_code_p := SPostForm. (* ParseDeviceAccessTokenRequest deco
 (* every parser lets Basic overwrite the form's client_id/client_secret and reads an assertion's
    issuer, so: PXBasic, PXAssert name X (with a valid credential of X); PXPost, PXPostId name Y
    (with a secret that is not Y's) *)
-Definition names_other_client (p : pres) : option amethod :=
-  match p with PXPost vm | PXPostId vm | PXDup vm => Some vm | _ => None end.
+Definition names_other_client (p : pres) : option victim :=
+  match p with PXPost v | PXPostId v | PXDup v => Some v | _ => None end.
 (* a credential sent where the reading guard does not look is not there *)
 Definition seen (src : source) (pl : place) (p : pres) : pres :=
   if visible src pl then p
